@@ -1,8 +1,8 @@
 """C15 Head marking selects exactly one head child per constituent, as the rule says."""
 import itertools
 from .. import model, sweep, refs
-from ..runner import Result
-from ..bridge import T, build, quiet, monitor, all_nodes, raw_leaves
+from ..runner import Result, scratch
+from ..bridge import T, build, quiet, monitor, all_nodes, raw_leaves, build_via_brackets, cli_options
 
 from trees import transform, transformconst
 from .. import headrules
@@ -13,7 +13,7 @@ TECHNIQUE = 'bounded exhaustive enumeration of shapes x edge assignments and of 
 
 EDGES = ['HD', 'NK', '--']
 DECOR = [lambda s: s, lambda s: s.upper(), lambda s: s.upper() + '-SBJ-1', lambda s: s.capitalize() + '=2',
-         lambda s: s.upper() + "-HD'", lambda s: s.upper() + '=2-14']
+         lambda s: s.upper() + "-HD'", lambda s: s.upper() + '=2-14', lambda s: s.upper() + '-1']
 
 
 def rule_items():
@@ -117,13 +117,18 @@ def check_rule(c):
 
     def bad(kind, detail):
         out.append({'kind': kind, 'where': 'mark_heads_by_rules', 'case': {'rule': c},
-                    'detail': '%s [preset %s, %s -> %s, listed child at %d]'
-                              % (detail, c['preset'], c['parent'], ' '.join(c['children']), c['pos']),
+                    'detail': '%s [preset %s, %s -> %s, listed child at %d%s]'
+                              % (detail, c['preset'], c['parent'], ' '.join(c['children']), c['pos'],
+                                 ', tree read from bracketed text with gf_split' if c.get('via') else ''),
                     'what': 'mark_heads_by_rules: ' + kind})
     try:
         # collision forcing: the same labels are first marked under the OTHER preset (result discarded)
         transform.mark_heads_by_rules(build(mt), mark_heads_preset='ptb' if c['preset'] == 'negra' else 'negra')
-        t = build(mt)
+        if c.get('via') == 'brackets':
+            # as PTB users get their trees: bracketed text read with gf_split
+            t = build_via_brackets(mt, scratch(), **cli_options({'gf_split': True}))
+        else:
+            t = build(mt)
         r = transform.mark_heads_by_rules(t, mark_heads_preset=c['preset'])
     except Exception as e:
         bad('exception', '%s: %s' % (type(e).__name__, e))
@@ -156,6 +161,9 @@ def rule_cases(lo, hi, maxlen):
                         pl = DECOR[(di + 1) % len(DECOR)](parent) if parent != '-' else parent
                         yield {'preset': preset, 'parent': pl, 'children': labs, 'pos': pos,
                                'tokens': as_tokens}
+                        if "'" not in pl + ''.join(labs):
+                            yield {'preset': preset, 'parent': pl, 'children': labs, 'pos': pos,
+                                   'tokens': as_tokens, 'via': 'brackets'}
 
 
 def anyparent_cases(maxlen):
